@@ -17,7 +17,12 @@ faithful model with that switch FALSE, real geometry W = 8192 / base 8188) plus 
 boundary variants (revert exactly k*8192-1 with a warm cache, revert k*8192 then k*8192-1 with a
 query in between, deeper reorgs, the snapshot and persisted-window variants);
 (iii) TLC-simulated behaviours of the expected model replayed on a real blockchain.Blockchain and
-compared step by step (results, pages, tokens, persisted windows, snapshot) plus the same oracle.
+compared step by step (results, pages, tokens, persisted windows, snapshot) plus the same oracle;
+every page handed back is kept and re-read after every later call (aliasing), some behaviours run
+on a store that scribbles over every buffer it lent, some on a pruned node (floor > 0);
+(iv) a concurrent round: queries from several goroutines for the whole lifetime of a writer that
+stores and reorgs across the boundary (stable-range exactness, provenance/order of every event,
+exactness at quiescence before and after a restart).
 Every divergence is a violation; an omission is labelled with the key of the known defect whose
 signature it has (differential experiment on copies of the database), so a returning "fixed"
 defect is reported under its own key. Only for a "known" switch the check additionally replays the
@@ -26,6 +31,7 @@ list should be updated) and continues with the repaired expectation.
 """
 import json
 import os
+import random
 import re
 
 import vlib
@@ -69,7 +75,9 @@ def _scenarios(base):
         return {"a": {"name": "Query", "f": f, "from": frm, "to": base + 12 if to is None else to,
                       "chunk": chunk, "limit": limit}}
 
-    probes = [Q(_FK1), Q(_FA1, chunk=1), Q(_FP1, limit=1), Q(_FK2, chunk=2, limit=2)]
+    # to = -1 is blockchain.PreConfirmedFilterSentinel (the "pre_confirmed" tag as range end)
+    probes = [Q(_FK1), Q(_FA1, chunk=1), Q(_FP1, limit=1), Q(_FK2, chunk=2, limit=2),
+              Q(_FK1, to=-1, chunk=2), Q(_FA1, frm=base + 2, to=-1, chunk=1, limit=1), Q(_FK1, frm=base + 5, to=base + 1)]
     to_boundary = [_S(_E)] * 3 + [_S(_Y)]             # base+0 .. base+3 = k*8192-1: the window is completed
     sc = {
         # H1 family: the LRU of persisted windows and reorgs around the boundary
@@ -233,11 +241,25 @@ def run(ctx):
     for nm, beh in sorted(_scenarios(8188).items()):
         directed.append(beh)
         names.append(nm)
+    # ... on an archive node (variants 0/7/3/4) and on a PRUNED node (variants 16+: blocks below a
+    # floor > 0 removed with pruner.PruneUpto; pruner.InitializeRunningEventFilter + seeded RetentionFloor)
+    rnd = random.Random(ctx.seed)
+    both = directed + directed
+    metas = [{"variant": v, "seed": rnd.randrange(1 << 40)}
+             for v in ([[0, 7, 3, 4][i % 4] for i in range(len(directed))] +
+                       [[16, 24, 20, 16][i % 4] for i in range(len(directed))])]
     res = ctx.run_engine(binary, "TestEventsReplay",
-                         {"w": 8192, "base": 8188, "behaviours": directed, "mode": "oracle",
-                          "variants": [0, 7, 3, 4]}, timeout=1800)
+                         {"w": 8192, "base": 8188, "behaviours": both, "meta": metas, "mode": "oracle"}, timeout=1800)
     ctx.absorb(res, "events", "TestEventsReplay")
-    total_beh, total_steps = len(directed), res.get("steps", 0)
+    total_beh, total_steps = len(both), res.get("steps", 0)
+    # three index windows (two complete ones below the modelled blocks): 16 380-block image
+    d3 = [beh for _, beh in sorted(_scenarios(16380).items())]
+    res3 = ctx.run_engine(binary, "TestEventsReplay", {"w": 8192, "base": 16380, "behaviours": d3, "mode": "oracle",
+                                                      "variants": [0, 8, 16, 4] if not thorough else [0, 7, 3, 4, 16, 25]},
+                          timeout=1800)
+    ctx.absorb(res3, "events", "TestEventsReplay")
+    total_beh += len(d3)
+    total_steps += res3.get("steps", 0)
     ctx.coverage["directed_behaviours"] = names
     ctx.coverage["switches_expected"] = {k: ("TRUE" if v else "FALSE") for k, v in state.items()}
 
@@ -258,14 +280,22 @@ def run(ctx):
     total_beh += len(behaviours)
     total_steps += res.get("steps", 0)
 
+    # a sample of them again on a pruned node (judged by the oracle, query starts clamped to the floor)
+    sample = behaviours[:400 if thorough else 40]
+    resp = ctx.run_engine(binary, "TestEventsReplay", {"w": 8192, "base": 8188, "behaviours": sample, "mode": "oracle",
+                                                      "variants": [16, 17, 24, 20]}, timeout=2400)
+    ctx.absorb(resp, "events", "TestEventsReplay")
+    total_beh += len(sample)
+    total_steps += resp.get("steps", 0)
+
+    # ---- (iv) concurrent round: queries from several goroutines during stores and reorgs across the
+    #      boundary, judged by the invariants restricted to what is defined under concurrency
+    resc = ctx.run_engine(binary, "TestEventsConcurrent",
+                          {"w": 8192, "base": 8188, "rounds": 12 if thorough else 3, "reorgs": 60, "readers": 3,
+                           "seed": ctx.seed}, timeout=2400)
+    ctx.absorb(resc, "events", "TestEventsConcurrent")
+
     if thorough:
-        # second geometry: two complete windows below the modelled blocks (16 380-block image)
-        b2 = [beh for _, beh in sorted(_scenarios(16380).items())]
-        res2 = ctx.run_engine(binary, "TestEventsReplay", {"w": 8192, "base": 16380, "behaviours": b2, "mode": "oracle",
-                                                          "variants": [0, 7, 3, 4]}, timeout=1800)
-        ctx.absorb(res2, "events", "TestEventsReplay")
-        total_beh += len(b2)
-        total_steps += res2.get("steps", 0)
         b2 = []
         for i in range(3):
             cfg = _render(sim_tpl, dict(state, Base=16380))
@@ -290,8 +320,10 @@ def run(ctx):
         "(probability ~1e-13 per block and key here) are not modelled; stale bits are modelled exactly",
         "matching semantics are the code's (an event needs at least as many keys as the filter has positions, "
         "trailing empty positions included); the oracle uses the same definition on the stored receipts",
-        "single-threaded use of Blockchain (no query concurrent with Store/RevertHead); no injected commit "
-        "failures (H3 belongs to C05); non-pruning node (pruner initializer exercised with floor 0 only)",
+        "concurrent queries are judged on ranges the writer does not touch, on provenance/order of every returned "
+        "event and at quiescence; a query that fails with an ERROR while the chain is reorganised is tolerated; "
+        "no injected commit failures (H3 belongs to C05); pruned nodes are judged by the oracle only (floor inside "
+        "or one window below the modelled blocks), concurrent pruning is C16's",
         "the pre-confirmed part of a query is exercised with an empty pre-confirmed chain only (C20 covers the overlay)",
     ]
     return ctx.finish(
